@@ -55,6 +55,10 @@ int main(int argc, char **argv)
 			vt_int("rc", rc); vt_int("inf", 0); vt_bytes("x", o + 1, rc == 1 ? 32 : 0); vt_bytes("y", o + 33, rc == 1 ? 32 : 0); }
 		else if (!strcmp(path, "sm9_g2")) { SM9_Z256_TWIST_POINT Q; rc = n == 129 ? sm9_z256_twist_point_from_uncompressed_octets(&Q, d) : -98; uint8_t o[129] = {0}; if (rc == 1) sm9_z256_twist_point_to_uncompressed_octets(&Q, o);
 			vt_int("rc", rc); vt_int("inf", 0); vt_bytes("x", o + 1, rc == 1 ? 64 : 0); vt_bytes("y", o + 65, rc == 1 ? 64 : 0); }
+		else if (!strcmp(path, "sm9_sign_mpk_der")) { SM9_SIGN_MASTER_KEY mk; memset(&mk, 0, sizeof mk); const uint8_t *p = d; size_t l = n; rc = sm9_sign_master_public_key_from_der(&mk, &p, &l); if (rc == 1 && l) rc = -97;
+			uint8_t o[129] = {0}; if (rc == 1) sm9_z256_twist_point_to_uncompressed_octets(&mk.Ppubs, o); vt_int("rc", rc); vt_int("inf", 0); vt_bytes("x", o + 1, rc == 1 ? 64 : 0); vt_bytes("y", o + 65, rc == 1 ? 64 : 0); }
+		else if (!strcmp(path, "sm9_enc_mpk_der")) { SM9_ENC_MASTER_KEY mk; memset(&mk, 0, sizeof mk); const uint8_t *p = d; size_t l = n; rc = sm9_enc_master_public_key_from_der(&mk, &p, &l); if (rc == 1 && l) rc = -97;
+			uint8_t o[65] = {0}; if (rc == 1) sm9_z256_point_to_uncompressed_octets(&mk.Ppube, o); vt_int("rc", rc); vt_int("inf", 0); vt_bytes("x", o + 1, rc == 1 ? 32 : 0); vt_bytes("y", o + 33, rc == 1 ? 32 : 0); }
 		vt_end();
 		vt_begin("Reset"); vt_end();
 	}
